@@ -6,6 +6,7 @@ from hypothesis import strategies as st
 
 from .. import gens, refs
 from ..runner import Sub
+from . import probes
 from .common import L, Checker, arr
 
 PROPERTY_ID = "C20"
@@ -15,6 +16,7 @@ RULE = ("kinds: arith (every ordered pair of the four spatial-vector classes x l
         "symmetry, sum, I*a, I*v), transform (SE3 * vector = Ad x or Ad' x, class preserved). Vector magnitudes 1e-6..1e6. "
         "Non-trivial: all six components non-zero (vectors), centre of mass != 0 (inertia), rotation and translation both "
         "non-zero (transform).")
+RULE = RULE + probes.RULE_TEXT
 ASSUMPTIONS = ["1e-9 relative to the product of operand magnitudes", "reference adjoint from pbt/refs.py"]
 
 VCLASSES = ["SpatialVelocity", "SpatialAcceleration", "SpatialForce", "SpatialMomentum"]
@@ -60,6 +62,8 @@ def s_transform():
 
 
 def check_case(case):
+    if case.get("kind") in ("hist", "aug"):
+        return probes.run(case, PROPERTY_ID)
     return {"arith": _arith, "cross": _cross, "inertia": _inertia, "transform": _transform}[case["kind"]](case)
 
 
@@ -298,6 +302,8 @@ def _transform(case):
 
 
 def classify(case):
+    if case.get("kind") in ("hist", "aug"):
+        return probes.classify(case)
     k = case["kind"]
     lab = {"kind:" + k: True}
     if k == "arith":
@@ -322,4 +328,5 @@ def subchecks(tier):
         Sub("cross", strategy=s_cross(), n=(500, 8000), shards=(3, 8)),
         Sub("inertia", strategy=s_inertia(), n=(400, 8000), shards=(4, 8)),
         Sub("transform", strategy=s_transform(), n=(500, 8000), shards=(3, 8)),
+        *probes.subs(PROPERTY_ID),
     ]
